@@ -1,15 +1,30 @@
-//! One module per property. Each exposes `pub fn run(run: &mut Run)`.
+//! One module per property. Each exposes `pub fn run(run: &mut Run) -> &'static str` (returns its rule text).
 pub mod common;
+pub mod hist;
 
 pub mod c01;
+pub mod c02;
+pub mod c03;
+pub mod c06;
+pub mod c07;
+pub mod c15;
+pub mod c16;
+pub mod c18;
 
 use crate::framework::Run;
 
-pub const ALL: [&str; 1] = ["C01"];
+pub const ALL: [&str; 8] = ["C01", "C02", "C03", "C06", "C07", "C15", "C16", "C18"];
 
 pub fn dispatch(id: &str, run: &mut Run) -> Option<&'static str> {
     match id {
         "C01" => Some(c01::run(run)),
+        "C02" => Some(c02::run(run)),
+        "C03" => Some(c03::run(run)),
+        "C06" => Some(c06::run(run)),
+        "C07" => Some(c07::run(run)),
+        "C15" => Some(c15::run(run)),
+        "C16" => Some(c16::run(run)),
+        "C18" => Some(c18::run(run)),
         _ => None,
     }
 }
